@@ -51,6 +51,9 @@ const c10CallTimeout = 20 * time.Second
 
 type c10Member struct {
 	start, size int
+	hlen        int // header length
+	xend        int // end of the Extra field (offset in the member)
+	nend        int // end of the Name field incl. NUL (= xend if absent)
 	payload     []byte
 	marker      bool
 }
@@ -65,29 +68,76 @@ func c10ParseStrict(s []byte) ([]c10Member, error) {
 		if len(b) < 28 {
 			return nil, fmt.Errorf("member at %d: %d bytes left", off, len(b))
 		}
-		if b[0] != 0x1f || b[1] != 0x8b || b[2] != 8 || b[3] != 4 {
-			return nil, fmt.Errorf("member at %d: not a gzip member with FEXTRA only", off)
+		// gzip header as bgzf.Writer lays it out: FEXTRA always, the BC subfield first in Extra, optionally
+		// FNAME and FCOMMENT; nothing else
+		if b[0] != 0x1f || b[1] != 0x8b || b[2] != 8 || b[3]&4 == 0 || b[3]&^(4|8|16) != 0 {
+			return nil, fmt.Errorf("member at %d: not a gzip member with FEXTRA and at most FNAME, FCOMMENT", off)
 		}
-		if binary.LittleEndian.Uint16(b[10:]) != 6 || b[12] != 'B' || b[13] != 'C' || binary.LittleEndian.Uint16(b[14:]) != 2 {
-			return nil, fmt.Errorf("member at %d: extra field is not the single BC subfield", off)
+		xlen := int(binary.LittleEndian.Uint16(b[10:]))
+		if xlen < 6 || 12+xlen > len(b) || b[12] != 'B' || b[13] != 'C' || binary.LittleEndian.Uint16(b[14:]) != 2 {
+			return nil, fmt.Errorf("member at %d: extra field does not start with the BC subfield", off)
+		}
+		for q := 18; q < 12+xlen; { // the other subfields must be well-formed and must not be another BC
+			if q+4 > 12+xlen {
+				return nil, fmt.Errorf("member at %d: truncated extra subfield", off)
+			}
+			if b[q] == 'B' && b[q+1] == 'C' {
+				return nil, fmt.Errorf("member at %d: second BC subfield", off)
+			}
+			q += 4 + int(binary.LittleEndian.Uint16(b[q+2:]))
+			if q > 12+xlen {
+				return nil, fmt.Errorf("member at %d: extra subfield overruns XLEN", off)
+			}
+		}
+		xend := 12 + xlen
+		hlen := xend
+		nend := xend
+		for _, bit := range []byte{8, 16} {
+			if b[3]&bit != 0 {
+				z := bytes.IndexByte(b[hlen:], 0)
+				if z < 0 {
+					return nil, fmt.Errorf("member at %d: unterminated name/comment", off)
+				}
+				hlen += z + 1
+			}
+			if bit == 8 {
+				nend = hlen
+			}
 		}
 		size := int(binary.LittleEndian.Uint16(b[16:])) + 1
-		if size < 28 || size > len(b) {
-			return nil, fmt.Errorf("member at %d: BSIZE+1 = %d, %d bytes left", off, size, len(b))
+		if size < hlen+10 || size > len(b) {
+			return nil, fmt.Errorf("member at %d: BSIZE+1 = %d, header %d, %d bytes left", off, size, hlen, len(b))
 		}
-		body := b[18 : size-8]
-		cr := &c10ByteCounter{b: body}
-		payload, err := io.ReadAll(flate.NewReader(cr))
-		if err != nil {
-			return nil, fmt.Errorf("member at %d: inflate: %v", off, err)
+		// the block body: deflate data + trailer, optionally followed (compress/gzip reads multistream)
+		// by further gzip members with a plain ten-byte header, each with its own trailer
+		var payload []byte
+		rest := b[hlen:size]
+		for first := true; ; first = false {
+			if !first {
+				if len(rest) < 10 || rest[0] != 0x1f || rest[1] != 0x8b || rest[2] != 8 || rest[3] != 0 {
+					return nil, fmt.Errorf("member at %d: bytes after the trailer are not a plain gzip header", off)
+				}
+				rest = rest[10:]
+			}
+			cr := &c10ByteCounter{b: rest}
+			p, err := io.ReadAll(flate.NewReader(cr))
+			if err != nil {
+				return nil, fmt.Errorf("member at %d: inflate: %v", off, err)
+			}
+			if len(rest)-cr.n < 8 {
+				return nil, fmt.Errorf("member at %d: deflate stream uses %d of %d bytes, no room for the trailer", off, cr.n, len(rest))
+			}
+			tr := rest[cr.n:]
+			if binary.LittleEndian.Uint32(tr) != crc32.ChecksumIEEE(p) || binary.LittleEndian.Uint32(tr[4:]) != uint32(len(p)) {
+				return nil, fmt.Errorf("member at %d: trailer mismatch", off)
+			}
+			payload = append(payload, p...)
+			rest = tr[8:]
+			if len(rest) == 0 {
+				break
+			}
 		}
-		if cr.n != len(body) {
-			return nil, fmt.Errorf("member at %d: deflate stream uses %d of %d bytes", off, cr.n, len(body))
-		}
-		if binary.LittleEndian.Uint32(b[size-8:]) != crc32.ChecksumIEEE(payload) || binary.LittleEndian.Uint32(b[size-4:]) != uint32(len(payload)) {
-			return nil, fmt.Errorf("member at %d: trailer mismatch", off)
-		}
-		ms = append(ms, c10Member{start: off, size: size, payload: payload, marker: string(b[:size]) == c10Magic})
+		ms = append(ms, c10Member{start: off, size: size, hlen: hlen, xend: xend, nend: nend, payload: payload, marker: string(b[:size]) == c10Magic})
 		off += size
 	}
 	return ms, nil
@@ -122,6 +172,12 @@ func c10Role(ms []c10Member, pos int) string {
 			r = "subfield-len"
 		case o < 18:
 			r = "bsize"
+		case o < m.xend:
+			r = "extra-user"
+		case o < m.nend:
+			r = "name"
+		case o < m.hlen:
+			r = "comment"
 		case o < m.size-8:
 			r = "deflate"
 		case o < m.size-4:
@@ -212,6 +268,11 @@ func c10Describe(name, layer string, raw []byte) (*c10Stream, error) {
 
 // c10WriteBgzf: parts are written one per Write; a nil part is a Flush.
 func c10WriteBgzf(level int, parts [][]byte) ([]byte, error) {
+	return c10WriteBgzfHdr(level, parts, nil)
+}
+
+// c10WriteBgzfHdr: as c10WriteBgzf, with the gzip header fields of the Writer set by setHdr.
+func c10WriteBgzfHdr(level int, parts [][]byte, setHdr func(w *bgzf.Writer)) ([]byte, error) {
 	var buf bytes.Buffer
 	var err error
 	o := guardTimeout(c10CallTimeout, func() {
@@ -219,6 +280,9 @@ func c10WriteBgzf(level int, parts [][]byte) ([]byte, error) {
 		w, err = bgzf.NewWriterLevel(&buf, level, 1)
 		if err != nil {
 			return
+		}
+		if setHdr != nil {
+			setHdr(w)
 		}
 		for _, p := range parts {
 			if p == nil {
@@ -319,6 +383,52 @@ func c10WriteBam(r *Rand, nref, nrec, seqLen int) ([]byte, error) {
 		return nil, fmt.Errorf("bam.Writer panics: %s", o.panicVal)
 	}
 	return buf.Bytes(), err
+}
+
+// c10HandBlock frames one BGZF block by hand: the 18-byte BGZF header, then one gzip member body per
+// payload (deflate data + CRC-32 + ISIZE; from the second on preceded by a plain ten-byte gzip header),
+// BSIZE covering all of it.  bgzf.Writer never writes more than 0xff00 bytes into a block; a foreign
+// writer may.
+func c10HandBlock(payloads [][]byte, level int) ([]byte, error) {
+	var body bytes.Buffer
+	for i, p := range payloads {
+		if i > 0 {
+			body.Write([]byte{0x1f, 0x8b, 8, 0, 0, 0, 0, 0, 0, 0xff})
+		}
+		fw, err := flate.NewWriter(&body, level)
+		if err != nil {
+			return nil, err
+		}
+		if _, err = fw.Write(p); err != nil {
+			return nil, err
+		}
+		if err = fw.Close(); err != nil {
+			return nil, err
+		}
+		var tr [8]byte
+		binary.LittleEndian.PutUint32(tr[:], crc32.ChecksumIEEE(p))
+		binary.LittleEndian.PutUint32(tr[4:], uint32(len(p)))
+		body.Write(tr[:])
+	}
+	size := 18 + body.Len()
+	if size > 65536 {
+		return nil, fmt.Errorf("hand-framed block of %d bytes does not fit BSIZE", size)
+	}
+	hdr := []byte{0x1f, 0x8b, 8, 4, 0, 0, 0, 0, 0, 0xff, 6, 0, 'B', 'C', 2, 0, byte(size - 1), byte((size - 1) >> 8)}
+	return append(hdr, body.Bytes()...), nil
+}
+
+// c10Pattern: n compressible but not constant bytes
+func c10Pattern(r *Rand, n int) []byte {
+	unit := c10Text(r, 61)
+	b := make([]byte, n)
+	for i := range b {
+		b[i] = unit[i%len(unit)]
+		if i%4093 == 0 {
+			b[i] = byte('a' + i/4093%26)
+		}
+	}
+	return b
 }
 
 // c10Reblock re-writes the data of a stream through bgzf.Writer with block boundaries at the given
@@ -605,6 +715,14 @@ func c10JudgeTrunc(st *c10Stream, k, rd int, o c10Obs) (string, string) {
 	return "", ""
 }
 
+func c10PayloadSizes(st *c10Stream) string {
+	var p []string
+	for _, m := range st.members {
+		p = append(p, fmt.Sprint(len(m.payload)))
+	}
+	return strings.Join(p, "+")
+}
+
 func c10Where(st *c10Stream, k int) string {
 	for i, m := range st.members {
 		if k > m.start && k < m.start+m.size {
@@ -671,10 +789,11 @@ func (c *c10ByteCounter) ReadByte() (byte, error) {
 }
 
 type c10Inflated struct {
-	ok      bool
-	used    int
-	payload []byte
-	code    int
+	ok       bool
+	used     int
+	payload  []byte
+	code     int
+	produced int // bytes delivered before the failure
 }
 
 type c10Walker struct {
@@ -710,12 +829,12 @@ func (w *c10Walker) inflate(b []byte) c10Inflated {
 	case err == nil:
 		r = c10Inflated{ok: true, used: cr.n, payload: payload}
 	case err == io.ErrUnexpectedEOF:
-		r = c10Inflated{code: 2}
+		r = c10Inflated{code: 2, produced: len(payload)}
 	default:
 		if _, ok := err.(flate.CorruptInputError); ok {
-			r = c10Inflated{code: 1}
+			r = c10Inflated{code: 1, produced: len(payload)}
 		} else {
-			r = c10Inflated{code: 3}
+			r = c10Inflated{code: 3, produced: len(payload)}
 		}
 	}
 	if len(w.memo) > 200000 {
@@ -787,7 +906,7 @@ func (e c10Entry) text(tag string) string {
 	if e.res.ok {
 		return fmt.Sprintf("%s:%d:%d:o:%d:%s", tag, e.start, e.n, e.res.used, hexs(e.res.payload))
 	}
-	return fmt.Sprintf("%s:%d:%d:f:%d", tag, e.start, e.n, e.res.code)
+	return fmt.Sprintf("%s:%d:%d:f:%d:%d", tag, e.start, e.n, e.res.code, e.res.produced)
 }
 
 func c10Table(parts []string) string {
@@ -911,9 +1030,32 @@ func c10Enumerate(c *ctx, st *c10Stream, valsAt func(pos int, role string) []int
 			}
 			in := c10Input{Kind: "trunc", Layer: st.layer, Name: st.name, Stream: hexRaw, Cut: k, Rd: rd, Chunk: c10Chunk(k)}
 			if k == n {
-				// the intact stream: must read back completely (sanity of the harness, not a C10 clause)
+				// the intact stream.  A conformant one (every block holds at most 64 KiB) must read back
+				// completely (sanity of the harness).  One with an oversize block (hand-framed, "edge-…") must
+				// fail or read back completely: a clean end with other data is "read as different valid data".
 				full := o.kind == "eof" && !o.hdrErr && (st.layer == "bam" && len(o.recs) == len(st.recs) || st.layer == "bgzf" && bytes.Equal(o.data, st.data) && o.hasEOF == "t")
-				if !full {
+				conformant := true
+				for _, m := range st.members {
+					if len(m.payload) > bgzf.MaxBlockSize {
+						conformant = false
+					}
+				}
+				if !conformant {
+					r.eval(fmt.Sprintf("%s/intact/%d", st.name, rd), true)
+					r.hist(fmt.Sprintf("intact.oversize-block.%s", map[bool]string{true: "clean-eof", false: "error"}[o.kind == "eof"]))
+				}
+				switch {
+				case full:
+				case o.bad != "":
+					r.fail(fmt.Sprintf("intact.%s.%s", st.layer, o.bad), o.what, in)
+				case o.kind == "eof" && !o.hdrErr && st.layer == "bgzf":
+					cls := "clean-eof-wrong-data"
+					if bytes.HasPrefix(st.data, o.data) {
+						cls = "clean-eof-data-lost"
+					}
+					r.fail("intact.bgzf."+cls, fmt.Sprintf("%s rd=%d: the intact stream (block payloads %s) reads as %d of %d data bytes, then a clean io.EOF",
+						st.name, rd, c10PayloadSizes(st), len(o.data), len(st.data)), in)
+				case conformant:
 					r.fail("intact."+st.layer+".does-not-read-back", "the intact stream does not read back: "+o.verdict(st.layer), in)
 				}
 				continue
@@ -1061,6 +1203,15 @@ func c10Streams(c *ctx, scale int, tag string) []*c10Stream {
 	// S3: stored (level 0) blocks: the payload bytes are literally in the stream
 	raw, err = c10WriteBgzf(gzip.NoCompression, [][]byte{rnd.bytes(20 * scale), nil, rnd.bytes(11 * scale)})
 	add("stored", "bgzf", raw, err)
+	// S4: the Writer's gzip header fields set: user Extra subfield after BC, Name, Comment, MTIME, OS
+	raw, err = c10WriteBgzfHdr(gzip.DefaultCompression, [][]byte{c10Text(rnd, 12*scale), nil, c10Text(rnd, 9*scale)}, func(w *bgzf.Writer) {
+		w.Extra = []byte{'X', 'Y', 3, 0, 7, 8, 9}
+		w.Name = "n.gz"
+		w.Comment = "c\u00e9"
+		w.ModTime = time.Unix(1234567, 0)
+		w.OS = 3
+	})
+	add("named-header", "bgzf", raw, err)
 	// B1: BAM as bam.Writer lays it out: header block, record block, marker
 	raw, err = c10WriteBam(rnd, 1, 3, 4*scale)
 	b1 := add("bam-writer", "bam", raw, err)
@@ -1086,10 +1237,53 @@ func c10Streams(c *ctx, scale int, tag string) []*c10Stream {
 	return out
 }
 
+// c10EdgeStreams: hand-framed streams around the block capacity (bgzf.Writer never writes them): a block
+// holding 65535, 65536, 65537, 65538 bytes, followed by a small block and the marker; and blocks made of
+// two gzip members (compress/gzip reads the buffered member in multistream mode) holding 65536+1,
+// 65537+0 and 65535+1 bytes.  Every truncation, and sampled substitutions of the header and trailer
+// bytes of the big block.
+func c10EdgeStreams(c *ctx) []*c10Stream {
+	r := c.res
+	var out []*c10Stream
+	type spec struct {
+		name  string
+		parts []int
+	}
+	specs := []spec{{"edge-65535", []int{65535}}, {"edge-65536", []int{65536}}, {"edge-65537", []int{65537}}, {"edge-65538", []int{65538}},
+		{"edge-2gz-65536+1", []int{65536, 1}}, {"edge-2gz-65537+0", []int{65537, 0}}, {"edge-2gz-65535+1", []int{65535, 1}}}
+	for _, sp := range specs {
+		var ps [][]byte
+		for _, n := range sp.parts {
+			ps = append(ps, c10Pattern(c.rnd, n))
+		}
+		big, err := c10HandBlock(ps, gzip.DefaultCompression)
+		var raw []byte
+		if err == nil {
+			var small []byte
+			small, err = c10HandBlock([][]byte{[]byte("tail")}, gzip.DefaultCompression)
+			raw = append(append(append(raw, big...), small...), c10Magic...)
+		}
+		if err != nil {
+			r.note("stream %s not built: %v", sp.name, err)
+			continue
+		}
+		st, err := c10Describe(sp.name, "bgzf", raw)
+		if err != nil {
+			r.note("stream %s not usable: %v", sp.name, err)
+			r.fail("c10.intact."+sp.name, "the hand-framed stream does not parse: "+err.Error(), c10Input{Kind: "build", Name: sp.name})
+			continue
+		}
+		out = append(out, st)
+		r.hist(fmt.Sprintf("stream.edge.payload=%s", c10PayloadSizes(st)))
+		r.sample(map[string]interface{}{"stream": sp.name, "layer": "bgzf", "bytes": len(raw), "members": len(st.members), "block_payloads": c10PayloadSizes(st)})
+	}
+	return out
+}
+
 func checkC10(c *ctx) {
 	r := c.res
 	r.Exhaustive = true
-	r.Rule = "streams: closed BGZF/BAM streams written by bgzf.Writer / bam.Writer (one block; two blocks + empty block; stored blocks; BAM as written; the same BAM data re-blocked so that block boundaries fall inside the header, inside and right after a record length prefix, inside a record and at a record end). " +
+	r.Rule = "streams: closed BGZF/BAM streams written by bgzf.Writer / bam.Writer (one block; two blocks + empty block; stored blocks; a stream whose members carry user Extra, Name and Comment; BAM as written; the same BAM data re-blocked so that block boundaries fall inside the header, inside and right after a record length prefix, inside a record and at a record end); hand-framed streams around the block capacity (one block of 65535/65536/65537/65538 payload bytes, and blocks of two gzip members holding 65536+1, 65537+0, 65535+1 bytes: every truncation, sampled substitutions of the big block's header/trailer bytes, and the intact stream, which must fail or read back completely). " +
 		"Cases: EVERY truncation length 0..len-1 and EVERY (position, value != original) single-byte substitution (thorough: larger streams, all values on header/trailer bytes, 24 sampled values on deflate bytes), each for rd in {1,3}, read with Read chunk sizes 1 (ReadByte), 3, 64, 4096. " +
 		"Every case is non-trivial (the input differs from the intact stream); distinct = distinct (stream, cut | position, value, rd). " +
 		"Oracle (implementation only): output must be a prefix of the original data/records; clean io.EOF only at a member boundary (BAM: that is also a record boundary); HasEOF false on every truncation; substitution: error, or exactly the original output. " +
@@ -1168,6 +1362,19 @@ func checkC10(c *ctx) {
 			r.note("%s (bgzf): enumerated in %.1fs", bg.name, time.Since(t0).Seconds())
 		}
 	}
+	for _, st := range c10EdgeStreams(c) {
+		smp := sampled(st, 2)
+		first := st.members[0]
+		vals := func(pos int, role string) []int {
+			if pos >= first.start+first.size || strings.HasSuffix(role, "deflate") {
+				return nil
+			}
+			return smp(pos, role)
+		}
+		t0 := time.Now()
+		c10Enumerate(c, st, vals)
+		r.note("%s (bgzf, hand-framed): %d bytes, block payloads %s: enumerated in %.1fs", st.name, len(st.raw), c10PayloadSizes(st), time.Since(t0).Seconds())
+	}
 	if c.thorough() {
 		c10BigBam(c)
 	}
@@ -1217,7 +1424,7 @@ func c10BigBam(c *ctx) {
 	mut := append([]byte{}, raw...)
 	for _, m := range st.members {
 		for off := 0; off < m.size; off++ {
-			if off >= 18 && off < m.size-8 {
+			if off >= m.hlen && off < m.size-8 {
 				continue
 			}
 			pos := m.start + off
